@@ -307,3 +307,27 @@ Definition runB (args : list bytes) (defined : list name) (bodies : name -> N ->
   else match dispatchB defined bodies cs with
        | (t, s, f) => mkObsB (mkObs t f false) s
        end.
+
+(* ====================================================================================
+   What the script writes to its standard output.
+
+   hook.sh:4-7   if [[ "${1:-}" == "--config" ]] ; then __config__ ; exit 0 ; fi
+   `__config__` is called as a plain command of the main shell, with the script's own
+   file descriptor 1: the bytes it writes are the bytes on the script's stdout - no
+   capture, no expansion, no re-printing in between.  [text] is everything the function
+   wrote to fd 1 by the time it ended (ANY byte string: a leading `---`, `%`, backslash
+   sequences, quotes, NUL, no final newline, several final newlines, nothing at all, more
+   than an argument of a command could hold).  An undefined __config__ ("command not
+   found", on stderr) writes nothing; without --config the framework itself writes
+   nothing to stdout (context::jq is only ever called inside command substitutions). *)
+Record obsC := mkObsC {
+  oc_run    : obsB;
+  oc_stdout : bytes      (* the script's stdout, byte for byte *)
+}.
+
+Definition stdout_of (args : list bytes) (defined : list name) (text : bytes) : bytes :=
+  if is_config args then (if mem config_name defined then text else []) else [].
+
+Definition runC (args : list bytes) (defined : list name) (bodies : name -> N -> body) (cs : list ctx)
+                (text : bytes) : obsC :=
+  mkObsC (runB args defined bodies cs) (stdout_of args defined text).
